@@ -8,6 +8,10 @@ base = json.load(open('/root/.vp/BASELINE.json'))
 out = tempfile.mktemp(suffix='.xml', dir='/dev/shm' if os.path.isdir('/dev/shm') else None)
 cmd = base['cmd'].replace('<file>', out)
 env = dict(os.environ); env.pop('AUREL_VERIF', None)
+tree = os.environ.get('AUREL_TREE')      # run the suite of another checkout
+if tree:
+    cmd = cmd.replace('cd /repo', 'cd ' + tree)
+    env['PYTHONPATH'] = tree + '/src'
 p = subprocess.run(cmd, shell=True, env=env, stdout=subprocess.PIPE, stderr=subprocess.STDOUT, text=True)
 passed = set()
 for tc in ET.parse(out).getroot().iter('testcase'):
